@@ -34,7 +34,8 @@ package hessian
 
 //@ func (*Decoder).readClassDef
 //@   assigns @pos, @E, @declared
-//@   loop 1 invariant [C14,C05:clsdef-index] 0 <= i && i <= int(count) && len(fields) == int(count)
+//@   loop 1 invariant [C14,C05:clsdef-index] 0 <= i && i <= int(count) && len(fields) == i
+//@   loop 1 invariant [C14:clsdef-consumed] i <= @pos - old(@pos)
 //@   ensures [C05:classdef-total] true
 
 //@ func findField
@@ -93,11 +94,21 @@ package hessian
 
 // ---------------------------------------------------------------- lists (C03, C04, C06, C14)
 
+//@ func preallocLen
+//@   pure
+//@   ensures [C14:prealloc-cap] result == ite(length > 1024, 1024, length)
+
+//@ func grownLen
+//@   pure
+//@   requires 0 <= n && n < length && length <= 0x7fffffff
+//@   ensures [C14:grown-bounds] n < result && result <= length && (result <= 2*n || result <= 2048)
+
 //@ func (*Decoder).readTypedList
 //@   assigns @pos, @E, @declared, @rset, @nvals, @selfregs, @lastreader, @calls, @dstartcls, @dstartrefs, @dstarttyps, d.typList, d.refList, d.clsDefList
 //@   sets @lastreader = 1
 //@   sets @calls = old(@calls) + 1
-//@   loop 1 invariant [C14,C03:typedlist-index] (isVariableArr || (0 <= j && j <= length)) && 0 <= length
+//@   loop 1 invariant [C14,C03:typedlist-index] (isVariableArr || (0 <= j && j <= length)) && 0 <= length && length <= 0x7fffffff
+//@   loop 1 invariant [C14:typedlist-consumed] isVariableArr || (j <= @pos - old(@pos) && 0 <= size && size <= length)
 //@   loop 1 invariant [C03,C06:typedlist-one-value-per-element] @nvals == old(@nvals) + j
 //@   loop 1 invariant [C04:typedlist-registered-first] @selfregs == old(@selfregs) + 1 && len(d.refList) >= len(old(d.refList)) + 1 && len(d.clsDefList) >= len(old(d.clsDefList)) && len(d.refList) >= len(old(d.refList)) && len(d.typList) >= len(old(d.typList))
 //@   proves  [C03,C06:typedlist-count]   err == nil && result0 != nil && tag != 0x55 ==> @nvals == old(@nvals) + length
@@ -109,7 +120,8 @@ package hessian
 //@   assigns @pos, @E, @declared, @rset, @nvals, @selfregs, @lastreader, @calls, @dstartcls, @dstartrefs, @dstarttyps, d.typList, d.refList, d.clsDefList
 //@   sets @lastreader = 2
 //@   sets @calls = old(@calls) + 1
-//@   loop 1 invariant [C14,C03:untypedlist-index] (isVariableArr || (0 <= j && j <= length)) && 0 <= length && (!isVariableArr ==> len(ary) == length)
+//@   loop 1 invariant [C14,C03:untypedlist-index] (isVariableArr || (0 <= j && j <= length)) && 0 <= length && length <= 0x7fffffff && (!isVariableArr ==> j <= len(ary) && len(ary) <= length)
+//@   loop 1 invariant [C14:untypedlist-consumed] isVariableArr || j <= @pos - old(@pos)
 //@   loop 1 invariant [C03,C06:untypedlist-one-value-per-element] @nvals == old(@nvals) + j
 //@   loop 1 invariant [C04:untypedlist-registered-first] @selfregs == old(@selfregs) + 1 && len(d.refList) >= len(old(d.refList)) + 1 && len(d.clsDefList) >= len(old(d.clsDefList)) && len(d.refList) >= len(old(d.refList)) && len(d.typList) >= len(old(d.typList))
 //@   proves  [C03,C06:untypedlist-count]   err == nil && result0 != nil && tag != 0x57 ==> @nvals == old(@nvals) + length
@@ -182,6 +194,7 @@ package hessian
 //@   let tg    = @in[old(@pos)]
 //@   let p1    = old(@pos) + 1
 //@   proves [C14,C06:data-eof]       !avail ==> err != nil
+//@   ensures [C14,C06:data-consumes] err == nil ==> @pos >= old(@pos) + 1
 //@   proves [C01,C03:data-null]      avail && tg == 'N' ==> err == nil && result0 == nil && @pos == p1
 //@   proves [C01,C03:data-end]       avail && tg == 'Z' ==> err == io.EOF && @pos == p1
 //@   proves [C01,C03:data-true]      avail && tg == 'T' ==> err == nil && istype(result0, "bool") && i.bool(result0) && @pos == p1
